@@ -21,6 +21,7 @@ import (
 	"flag"
 	"fmt"
 	"os"
+	"runtime/pprof"
 	"sort"
 	"strings"
 	"time"
@@ -244,7 +245,9 @@ var canary = []Op{{K: opNewTemp}}
 func nonAuto(f []failure) []failure {
 	var r []failure
 	for _, x := range f {
-		if x.Name != "F" {
+		switch x.Name {
+		case "F", "G", "H", "Gb":
+		default:
 			r = append(r, x)
 		}
 	}
@@ -333,6 +336,7 @@ type dfsShard struct {
 	MaxLen int  `json:"maxlen"`
 	Short  bool `json:"short"` // execute the histories of length <= len(Prefix-level) instead of the extensions
 	PLen   int  `json:"plen"`
+	Alpha  int  `json:"alpha"` // 1: extended alphabet; only histories containing an extended op are executed
 }
 
 var ws *wstate
@@ -357,7 +361,7 @@ func dfsWorker(w *pool.W, arg json.RawMessage) {
 	}
 	var rec_ func(m *model, h []Op, limit int, execFrom int)
 	rec_ = func(m *model, h []Op, limit int, execFrom int) {
-		if len(h) >= execFrom {
+		if len(h) >= execFrom && (sh.Alpha == 0 || hasExt(h)) {
 			if w.Item(histString(h)) {
 				note(h, ws.one(h))
 			}
@@ -372,9 +376,11 @@ func dfsWorker(w *pool.W, arg json.RawMessage) {
 		}
 	}
 	if sh.Short {
-		rec_(newModel(), nil, sh.PLen, 0)
+		rec_(newModelA(sh.Alpha), nil, sh.PLen, 0)
 	} else {
-		rec_(modelOf(sh.Prefix), append([]Op(nil), sh.Prefix...), sh.MaxLen, len(sh.Prefix)+1)
+		pm := modelOf(sh.Prefix)
+		pm.alpha = sh.Alpha
+		rec_(pm, append([]Op(nil), sh.Prefix...), sh.MaxLen, len(sh.Prefix)+1)
 	}
 	ws.flush(keys)
 }
@@ -442,14 +448,19 @@ func main() {
 		return
 	}
 	// full enumeration up to fullLen, merged search up to maxLen
-	fullLen, maxLen := 4, 4
+	fullLen, maxLen, extLen := 4, 4, 3
 	if !c.Quick() {
-		fullLen, maxLen = 5, 5
+		fullLen, maxLen, extLen = 5, 5, 4
 	}
-	c.SetBudget(4*time.Minute, 40*time.Minute)
-	budget := 4 * time.Minute
+	// development aid: VERIF_C12_LENS="<core>,<ext>" overrides the two length bounds
+	if x := os.Getenv("VERIF_C12_LENS"); x != "" {
+		fmt.Sscanf(x, "%d,%d", &fullLen, &extLen)
+		maxLen = fullLen
+	}
+	c.SetBudget(8*time.Minute, 60*time.Minute)
+	budget := 8 * time.Minute
 	if !c.Quick() {
-		budget = 40 * time.Minute
+		budget = 60 * time.Minute
 	}
 	if f := flag.Lookup("budget"); f != nil {
 		if d, err := time.ParseDuration(f.Value.String()); err == nil && d > 0 {
@@ -501,38 +512,62 @@ func main() {
 		c.Fail("worker-death:"+runner.FatalFrame(d.Stderr), "no-crash", 0, map[string]any{"item": d.Item, "reason": d.Reason}, d.Stderr)
 	}
 
-	// phase 1: every canonical history of length <= fullLen
-	plen := 2
-	if fullLen >= 5 {
-		plen = 3
-	}
-	var shards []pool.Shard
-	shards = append(shards, pool.Shard{Kind: "dfs", Arg: dfsShard{Short: true, PLen: plen}})
-	var gen func(m *model, h []Op)
-	gen = func(m *model, h []Op) {
-		if len(h) == plen {
-			shards = append(shards, pool.Shard{Kind: "dfs", Arg: dfsShard{Prefix: append([]Op(nil), h...), MaxLen: fullLen}})
-			return
+	// phase 1: every canonical history of length <= fullLen over the core alphabet, then every
+	// history of length <= extLen over the extended alphabet that contains an extended op
+	runFull := func(alpha, limit int) {
+		plen := 2
+		if limit >= 5 || (alpha > 0 && limit >= 4) {
+			plen = 3
 		}
-		for _, o := range m.enabled(maxTemps) {
-			cm := m.clone()
-			cm.apply(o, len(h))
-			gen(cm, append(h, o))
+		if plen > limit {
+			plen = limit
+		}
+		var shards []pool.Shard
+		shards = append(shards, pool.Shard{Kind: "dfs", Arg: dfsShard{Short: true, PLen: plen, Alpha: alpha}})
+		var gen func(m *model, h []Op)
+		gen = func(m *model, h []Op) {
+			if len(h) == plen {
+				if plen < limit {
+					shards = append(shards, pool.Shard{Kind: "dfs", Arg: dfsShard{Prefix: append([]Op(nil), h...), MaxLen: limit, Alpha: alpha}})
+				}
+				return
+			}
+			for _, o := range m.enabled(maxTemps) {
+				cm := m.clone()
+				cm.apply(o, len(h))
+				gen(cm, append(h, o))
+			}
+		}
+		gen(newModelA(alpha), nil)
+		before := append([]int64(nil), byLen...)
+		pool.Run(shards, opts, onRec, onDeath)
+		for l, n := range countHistories(limit, maxTemps, alpha) {
+			if byLen[l]-before[l] != n && skipped == 0 {
+				c.HarnessError("alphabet %d, length %d: executed %d histories, model enumerates %d", alpha, l, byLen[l]-before[l], n)
+			}
 		}
 	}
-	gen(newModel(), nil)
-	pool.Run(shards, opts, onRec, onDeath)
-	expected := countHistories(fullLen, maxTemps)
+	// the (smaller) extended family first: if the budget runs out on an overloaded machine it is the
+	// tail of the core enumeration that is cut
+	runFull(1, extLen)
+	extTotal := total
+	extByLen := append([]int64(nil), byLen[:extLen+1]...)
+	runFull(0, fullLen)
+	coreTotal := total - extTotal
+	coreByLen := append([]int64(nil), byLen...)
+	for l := range extByLen {
+		coreByLen[l] -= extByLen[l]
+	}
 	var expTotal int64
-	for l, n := range expected {
+	for _, n := range countHistories(fullLen, maxTemps, 0) {
 		expTotal += n
-		if byLen[l] != n && skipped == 0 {
-			c.HarnessError("length %d: executed %d histories, model enumerates %d", l, byLen[l], n)
-		}
+	}
+	for _, n := range countHistories(extLen, maxTemps, 1) {
+		expTotal += n
 	}
 	fullTotal := total
 	if skipped > 0 {
-		c.NotExhaustive(fmt.Sprintf("budget expired during the full enumeration: %d of %d histories of length <= %d executed", total, expTotal, fullLen))
+		c.NotExhaustive(fmt.Sprintf("budget expired during the full enumeration: %d of %d histories (core <= %d, extended <= %d) executed", total, expTotal, fullLen, extLen))
 	}
 	distinctFull := len(best)
 	completed := fullLen
@@ -555,7 +590,7 @@ func main() {
 		}
 		sort.Slice(frontier, func(i, j int) bool { return histLess(frontier[i].H, frontier[j].H) })
 		chunk := len(frontier)/256 + 1
-		shards = shards[:0]
+		var shards []pool.Shard
 		for i := 0; i < len(frontier); i += chunk {
 			j := i + chunk
 			if j > len(frontier) {
@@ -586,7 +621,10 @@ func main() {
 	}
 
 	c.Set("full_enumeration_max_length", fullLen)
-	c.Set("histories_by_length", byLen[:completed+1])
+	c.Set("histories_by_length", coreByLen[:fullLen+1])
+	c.Set("core_alphabet_histories", coreTotal)
+	c.Set("extended_alphabet_max_length", extLen)
+	c.Set("extended_alphabet_histories_by_length", extByLen)
 	c.Set("full_enumeration_histories", fullTotal)
 	c.Set("distinct_states_in_full_enumeration", distinctFull)
 	c.Set("merged_search_max_length", completed)
@@ -595,7 +633,8 @@ func main() {
 	reportFindings(c, found)
 	c.Set("failing_histories", failing)
 	c.Set("names", nm)
-	c.Set("ops", "newtemp | discard(T) | define(vm,class|interface|function,name) | lookup | new(vm,name|F) | call(vm,name); 1 base + <=3 temps, 3 interchangeable names (canonical order of first use) + autoloadable class F")
+	c.Set("ops", "core: newtemp | discard(T) | define(vm,class|interface|function,name) | loadfile(vm,name) | evaldef(vm,name) | lookup | new(vm,name|F) | call(vm,name); extended: + handler(vm,form,name) [12 callable forms made at boot on the base VM, invoked HotHandler-style on vm; one form per history] | loadfile(vm,F|G|H) | new(vm,G|H); 1 base + <=3 temps, 3 interchangeable names (canonical order of first use) + class-path family F (class), G (interface + bystander class Gb), H (class extends F implements G)")
+	c.Set("handler_forms", formName)
 	c.Set("probes_per_vm_and_name", len(probes))
 	for k, n := range cats {
 		for i := 0; i < n && i < 1; i++ {
@@ -612,14 +651,17 @@ func main() {
 		r := execute(s, nm, dir, true)
 		c.Sample(map[string]any{"history": histString(s), "violations": len(r.Fails), "final_matrix": compactRaw(r.Raw)})
 	}
-	need := []string{"eval:resolved-on-base", "eval:unresolved", "variant:resolved", "variant:unresolved", "id:own", "id:base-through-temp", "id:absent", "bool:present", "bool:absent", "open-choice->base", "auto:resolved"}
+	need := []string{"auto:pure-lookup", "auto:absent", "auto:visible", "auto:open-resolved", "eval:resolved-on-base", "eval:unresolved", "variant:resolved", "variant:unresolved", "id:own", "id:base-through-temp", "id:absent", "bool:present", "bool:absent", "open-choice->base", "auto:resolved"}
+	for f := 0; f < nForms; f++ {
+		need = append(need, "handler:"+formName[f]+":ok")
+	}
 	for _, n := range need {
 		if cats[n] == 0 {
 			c.HarnessError("vacuous: outcome class %q never observed", n)
 		}
 	}
 	os.RemoveAll(dir)
-	c.Finish(int64(len(best)), total, total, fmt.Sprintf("every canonical op history of length <= %d executed on fresh real VMs (%d), plus merged-state BFS to length %d (%d executions); after each history the full VM x name x probe matrix is compared with the set model (base ∪ own); distinct = distinct (model state, observation vector) pairs", fullLen, fullTotal, completed, mergedExec))
+	c.Finish(int64(len(best)), total, total, fmt.Sprintf("every canonical op history of length <= %d over the core alphabet (%d) and every history of length <= %d over the extended alphabet that contains a handler / class-path op (%d) executed on fresh real VMs, plus merged-state BFS to length %d (%d executions); after each history the full VM x name x probe matrix is compared with the set model (base ∪ own); distinct = distinct (model state, observation vector) pairs", fullLen, coreTotal, extLen, fullTotal-coreTotal, completed, mergedExec))
 }
 
 type foundKey struct {
@@ -632,6 +674,14 @@ func opClass(o Op) string {
 	switch o.K {
 	case opNew, opCall:
 		return "use"
+	case opHandler:
+		// the handler forms are grouped by what the callable's body is bound to; a defect of one
+		// group must not be reported under (or hidden behind) a finding of another group
+		return "handler/" + formGroup[o.Form]
+	case opLoad:
+		if o.Name >= nSym {
+			return "loadfile/class-path"
+		}
 	}
 	return o.K
 }
@@ -659,7 +709,7 @@ func reportFindings(c *ev.Check, found map[string]*foundKey) {
 		it := item{key: k, f: f, ops: ops, class: map[string]bool{}}
 		for _, o := range ops {
 			it.class[opClass(o)] = true
-			if o.K == opLoad {
+			if o.K == opLoad && o.Name < nSym {
 				// a definitions file is also a plain definition: a history that fails with
 				// define(...) alone subsumes the same history with loadfile(...), not vice versa
 				it.class[opDefine] = true
@@ -740,10 +790,8 @@ func preflight(nm names, dir string) string {
 		return "preflight: the empty history already fails: " + detail(r.Fails)
 	}
 	r = execute([]Op{{K: opNewTemp}}, nm, dir, false)
-	for _, f := range r.Fails {
-		if f.Name != "F" {
-			return "preflight: a fresh temp VM already deviates: " + detail(r.Fails)
-		}
+	if len(nonAuto(r.Fails)) > 0 {
+		return "preflight: a fresh temp VM already deviates: " + detail(r.Fails)
 	}
 	return ""
 }
@@ -776,6 +824,19 @@ func replay(c *ev.Check, dir string) {
 			fmt.Println("no violation")
 		}
 		return
+	}
+	if n := os.Getenv("VERIF_C12_BENCH"); n != "" {
+		var k int
+		fmt.Sscan(n, &k)
+		f, _ := os.Create("/tmp/c12s3/cpu.prof")
+		pprof.StartCPUProfile(f)
+		t0 := time.Now()
+		for i := 0; i < k; i++ {
+			execute(h, nm, dir, false)
+		}
+		pprof.StopCPUProfile()
+		f.Close()
+		fmt.Println("bench:", time.Since(t0)/time.Duration(k), "per execution")
 	}
 	r := execute(h, nm, dir, true)
 	fmt.Println("history:", histString(h))
